@@ -10,7 +10,7 @@ regenerated constants, with the expected axioms and no forbidden construct, and 
 correspondence gate holds: implementation, hand-written Lean model and independent Lean spec agree
 on everything explored.  See DESIGN.md §4.
 """
-import argparse, fcntl, hashlib, json, os, re, shutil, subprocess, sys, time
+import argparse, fcntl, hashlib, json, os, re, shutil, subprocess, sys, threading, time
 from concurrent.futures import ThreadPoolExecutor
 
 VERIF = os.path.normpath(os.path.join(os.path.dirname(os.path.abspath(__file__)), ".."))
@@ -25,6 +25,7 @@ REPLAYS = os.path.join(VERIF, "replays")
 ALLOWED_AXIOMS = {"propext", "Classical.choice", "Quot.sound"}
 FORBIDDEN = re.compile(r"\bsorry\b|\badmit\b|^\s*axiom\s|native_decide|bv_decide|implemented_by|\bunsafe\s|maxHeartbeats\s+0\b", re.M)
 NCPU = min(16, os.cpu_count() or 4)
+STREAM_TIMEOUT = 600
 ENV = dict(os.environ, CARGO_NET_OFFLINE="true")
 
 sys.path.insert(0, os.path.dirname(os.path.abspath(__file__)))
@@ -193,9 +194,34 @@ def pipe_stream(name, harness_args, driver_mode, cache_key=None):
     h = subprocess.Popen([HARNESS] + harness_args, stdout=subprocess.PIPE, stderr=subprocess.PIPE, env=ENV)
     d = subprocess.Popen([DRIVER] + driver_mode.split(":"), stdin=h.stdout, stdout=subprocess.PIPE, stderr=subprocess.PIPE, text=True, env=ENV)
     h.stdout.close()
-    out, derr = d.communicate()
-    herr = h.stderr.read().decode(errors="replace")
+    timed_out = False
+    # the harness's stderr is drained concurrently (an engine spinning on an error message must not block on a full pipe)
+    herr_buf = []
+
+    def _drain():
+        try:
+            while True:
+                chunk = h.stderr.read(65536)
+                if not chunk:
+                    break
+                if sum(len(c) for c in herr_buf) < 200000:
+                    herr_buf.append(chunk)
+        except Exception:
+            pass
+    th = threading.Thread(target=_drain, daemon=True)
+    th.start()
+    try:
+        out, derr = d.communicate(timeout=STREAM_TIMEOUT)
+    except subprocess.TimeoutExpired:
+        timed_out = True
+        h.kill()
+        d.kill()
+        out, derr = d.communicate()
     h.wait()
+    th.join(timeout=5)
+    herr = b"".join(herr_buf).decode(errors="replace")
+    if timed_out:
+        herr += "\n[stream killed after %d s: the harness did not finish]" % STREAM_TIMEOUT
     summary, mism = None, []
     for line in out.splitlines():
         if line.startswith("SUMMARY "):
@@ -206,7 +232,7 @@ def pipe_stream(name, harness_args, driver_mode, cache_key=None):
         elif line.startswith("MISMATCH "):
             mism.append(line)
     res = {"name": name, "args": harness_args, "summary": summary, "mismatches": mism,
-           "harness_rc": h.returncode, "driver_rc": d.returncode, "harness_err": herr[-2000:], "driver_err": derr[-2000:]}
+           "harness_rc": (h.returncode if not timed_out else -9), "driver_rc": d.returncode, "harness_err": herr[-2000:], "driver_err": derr[-2000:]}
     if cache_key and summary is not None and h.returncode == 0:
         os.makedirs(os.path.join(WORK, "cache"), exist_ok=True)
         json.dump(res, open(os.path.join(WORK, "cache", cache_key + ".json"), "w"))
@@ -270,6 +296,8 @@ def decide(pid, tier, seed):
     spec = PROPS[pid]
     t0 = time.time()
     known = load_known()
+    global STREAM_TIMEOUT
+    STREAM_TIMEOUT = 300 if tier == "quick" else 10800
     with Lock():
         problems = build_all(need_engine=spec.get("need_engine", False))
         th = tree_hash()
